@@ -242,6 +242,17 @@ def _is_arr(o):
     return isinstance(o, _np.ndarray)
 
 
+def _inf_sign(o):
+    """+1 / -1 for a concrete +inf / -inf, else 0 (symbolic cells are finite reals: assumption A3)."""
+    if isinstance(o, (float, _np.floating)) and not isinstance(o, SymReal):
+        f = builtins.float(o)
+        if f == _math.inf:
+            return 1
+        if f == -_math.inf:
+            return -1
+    return 0
+
+
 def _numlike(o):
     return isinstance(o, (int, float, _np.integer, _np.floating, SymReal, SymInt, SymBool, bool, _np.bool_, Fraction))
 
@@ -459,6 +470,9 @@ class SymReal(float):
             return _elementwise(lambda x: self < x, o)
         if not _numlike(o):
             return NotImplemented
+        i = _inf_sign(o)
+        if i:
+            return i > 0
         return SymBool(self.z < lift_real(o))
 
     def __le__(self, o):
@@ -466,6 +480,9 @@ class SymReal(float):
             return _elementwise(lambda x: self <= x, o)
         if not _numlike(o):
             return NotImplemented
+        i = _inf_sign(o)
+        if i:
+            return i > 0
         return SymBool(self.z <= lift_real(o))
 
     def __gt__(self, o):
@@ -473,6 +490,9 @@ class SymReal(float):
             return _elementwise(lambda x: self > x, o)
         if not _numlike(o):
             return NotImplemented
+        i = _inf_sign(o)
+        if i:
+            return i < 0
         return SymBool(self.z > lift_real(o))
 
     def __ge__(self, o):
@@ -480,6 +500,9 @@ class SymReal(float):
             return _elementwise(lambda x: self >= x, o)
         if not _numlike(o):
             return NotImplemented
+        i = _inf_sign(o)
+        if i:
+            return i < 0
         return SymBool(self.z >= lift_real(o))
 
     def __eq__(self, o):
@@ -861,6 +884,11 @@ def smax(*xs):
         xs = tuple(xs[0])
     r = xs[0]
     for x in xs[1:]:
+        if _inf_sign(x) < 0 or _inf_sign(r) > 0:
+            continue
+        if _inf_sign(x) > 0 or _inf_sign(r) < 0:
+            r = x
+            continue
         if is_sym(r) or is_sym(x):
             r = SymReal(z3.If(lift_real(x) > lift_real(r), lift_real(x), lift_real(r)))
         else:
@@ -873,6 +901,11 @@ def smin(*xs):
         xs = tuple(xs[0])
     r = xs[0]
     for x in xs[1:]:
+        if _inf_sign(x) > 0 or _inf_sign(r) < 0:
+            continue
+        if _inf_sign(x) < 0 or _inf_sign(r) > 0:
+            r = x
+            continue
         if is_sym(r) or is_sym(x):
             r = SymReal(z3.If(lift_real(x) < lift_real(r), lift_real(x), lift_real(r)))
         else:
